@@ -8,6 +8,9 @@ CHECKS = {
  "C01": ("Explicit-state bounded-exhaustive exploration: every (program, document) state of the stated finite universes (all single-clause programs over the query/operator/literal alphabets; composite programs by BFS over grammar productions) is enumerated, the reference interpreter's prediction is replayed on cfn_guard::run_checks and compared.",
          "Trusted base: refsem (doc-tagged rules transcribe docs/*.md, pin-tagged rules adopt pinned behaviour where the documentation is silent), the harness printer, small-scope alphabets (2 keys, 7 scalars, depth 2).",
          "explicit-state bounded-exhaustive enumeration of programs x documents against a reference interpreter; every trace replayed on the implementation"),
+ "C13": ("Complete enumeration of a closed value universe: all ordered pairs of 40 values x six comparison operators x both polarities x prefix not, with the right-hand side as literal and as query, plus all range-bracket forms x bound pairs x values, list membership and a regex table; algebraic laws are checked on the implementation's own results and every literal-form result is compared with a native comparison kernel.",
+         "Trusted base: native Rust comparisons (i64::cmp, f64::partial_cmp, byte-wise str cmp), a 200-line backtracking regex matcher, the universe of 40 values; list operands are checked against the pinned one-level flattening, not the scalar laws.",
+         "exhaustive enumeration of value pairs x operators against algebraic laws and a native kernel"),
 }
 PENDING_REASON = "check under construction in this round (design in DESIGN.md section 5); not claimed until its quick tier runs clean on the unchanged tree"
 ALL = ["C%02d" % i for i in range(1, 20)]
